@@ -11,7 +11,7 @@ From Coq Require Import List ZArith String Bool Permutation Sorted.
 From Thunder Require Import Lib.Json Pagination.Model Pagination.ProofsSlice Pagination.ProofsSort
   Pagination.ProofsFilterImpl Pagination.ProofsWalk Pagination.ProofsPage Pagination.ProofsFilter Pagination.Base64
   Pagination.ProofsExt
-  Pagination.ProofsMain.
+  Pagination.ProofsMain Pagination.ProofsArgs.
 Import ListNotations.
 Open Scope list_scope.
 
@@ -403,6 +403,108 @@ Theorem fallback_without_custom_filters_refuted :
 Proof. exact f25_refutes. Qed.
 Print Assumptions fallback_without_custom_filters_refuted.
 
+(** * The argument classes the code rejects, page size zero *)
+
+(** A negative first or last is the client error "cannot be a negative integer" - whatever else is given
+    (it is tested before first-together-with-last) ... *)
+Theorem negative_first_or_last_rejected :
+  forall enc cfg l a, l <> [] -> sort_ok cfg a ->
+  (z_of_opt (a_first a) < 0 \/ z_of_opt (a_last a) < 0)%Z ->
+  get_connection enc cfg l a = inr ErrNegative.
+Proof. exact get_connection_negative. Qed.
+Print Assumptions negative_first_or_last_rejected.
+
+(** ... and first together with last (both non-negative) is the client error "cannot use both". *)
+Theorem first_together_with_last_rejected :
+  forall enc cfg l a f n, l <> [] -> sort_ok cfg a ->
+  a_first a = Some f -> a_last a = Some n -> (0 <= f)%Z -> (0 <= n)%Z ->
+  get_connection enc cfg l a = inr ErrBoth.
+Proof. exact get_connection_both. Qed.
+Print Assumptions first_together_with_last_rejected.
+
+(** first = 0 is accepted: the page is empty, both cursors are empty, totalCount is still the filtered
+    count, and hasNextPage is true as soon as there is a candidate - so a client that follows endCursor
+    with first = 0 makes no progress (the walk theorems ask for a positive page size).  Same for last = 0. *)
+Theorem first_zero_gives_the_empty_page :
+  forall enc, injective enc ->
+  forall cfg l a c E1 cand, NoDup (map n_key l) -> sort_ok cfg a -> args_ok a ->
+  get_connection enc cfg l a = inl c ->
+  drop_through (a_after a) (base_edges enc cfg l a) E1 -> keep_until (a_before a) E1 cand ->
+  a_first a = Some 0%Z ->
+  c_edges c = [] /\ c_start c = EmptyString /\ c_end c = EmptyString /\
+  c_total c = total_count cfg l a /\ (cand <> [] -> c_next c = true).
+Proof. exact first_zero_page. Qed.
+Print Assumptions first_zero_gives_the_empty_page.
+
+Theorem last_zero_gives_the_empty_page :
+  forall enc, injective enc ->
+  forall cfg l a c E1 cand, NoDup (map n_key l) -> sort_ok cfg a -> args_ok a ->
+  get_connection enc cfg l a = inl c ->
+  drop_through (a_after a) (base_edges enc cfg l a) E1 -> keep_until (a_before a) E1 cand ->
+  a_last a = Some 0%Z ->
+  c_edges c = [] /\ c_start c = EmptyString /\ c_end c = EmptyString /\
+  c_total c = total_count cfg l a /\ (cand <> [] -> c_prev c = true).
+Proof. exact last_zero_page. Qed.
+Print Assumptions last_zero_gives_the_empty_page.
+
+(** * Walks over externally managed connections and ManualPaginationWithFallback
+
+    [walk_forward_by get] follows endCursor through any page function (it is what the correspondence check
+    runs for every kind of field); through a thunder-managed connection it is the walk of the theorems above. *)
+Theorem generic_walk_is_the_managed_walk :
+  forall enc cfg l a k fuel cur,
+  walk_forward_by (get_connection enc cfg l) fuel a k cur = walk_forward_from enc fuel cfg l a k cur /\
+  walk_backward_by (get_connection enc cfg l) fuel a k cur = walk_backward_from enc fuel cfg l a k cur.
+Proof.
+  exact (fun enc cfg l a k fuel cur =>
+           conj (walk_forward_by_managed enc cfg l a k fuel cur) (walk_backward_by_managed enc cfg l a k fuel cur)).
+Qed.
+Print Assumptions generic_walk_is_the_managed_walk.
+
+(** An externally managed connection whose resolver sets PostProcessOptions.SetPageInfo (and returns the
+    whole list every time): walking it partitions what the resolver returned - text-filtered iff
+    ApplyTextFilter, never sorted ([ext_list]) - whatever PaginationInfo the resolver reports. *)
+Theorem externally_managed_walk_forward_partition :
+  forall enc, injective enc ->
+  forall cfg l x a k, ei_set_page_info x = true -> NoDup (map n_key l) -> (0 < k)%Z ->
+  exists pages,
+    walk_forward_by (get_connection_ext enc cfg l x) (S (List.length l)) a k None = (map inl pages, true) /\
+    pages_nodes pages = ext_list cfg l x a /\
+    NoDup (map n_key (pages_nodes pages)) /\
+    Forall (fun c => (Z.of_nat (List.length (c_edges c)) <= k)%Z /\
+                     c_total c = Z.of_nat (List.length (ext_list cfg l x a))) pages.
+Proof. exact ext_walk_forward_partition. Qed.
+Print Assumptions externally_managed_walk_forward_partition.
+
+Theorem externally_managed_walk_backward_partition :
+  forall enc, injective enc ->
+  forall cfg l x a k, ei_set_page_info x = true -> NoDup (map n_key l) -> (0 < k)%Z ->
+  exists pages,
+    walk_backward_by (get_connection_ext enc cfg l x) (S (List.length l)) a k None = (map inl pages, true) /\
+    pages_nodes (rev pages) = ext_list cfg l x a /\
+    NoDup (map n_key (pages_nodes (rev pages))) /\
+    Forall (fun c => (Z.of_nat (List.length (c_edges c)) <= k)%Z /\
+                     c_total c = Z.of_nat (List.length (ext_list cfg l x a))) pages.
+Proof. exact ext_walk_backward_partition. Qed.
+Print Assumptions externally_managed_walk_backward_partition.
+
+(** ManualPaginationWithFallback with the switch on the fallback: the walk is the thunder-managed walk (all
+    walk theorems apply); on the manual side it is the externally managed walk. *)
+Theorem manual_pagination_with_fallback_walks :
+  forall enc cfg l x a k fuel cur,
+  walk_forward_by (get_connection_dual enc true cfg l x) fuel a k cur = walk_forward_from enc fuel cfg l a k cur /\
+  walk_forward_by (get_connection_dual enc false cfg l x) fuel a k cur =
+    walk_forward_by (get_connection_ext enc cfg l x) fuel a k cur.
+Proof.
+  exact (fun enc cfg l x a k fuel cur =>
+           conj (eq_trans (walk_forward_by_ext (get_connection_dual enc true cfg l x) (get_connection enc cfg l) a a k
+                             (fun _ => eq_refl) fuel cur)
+                          (walk_forward_by_managed enc cfg l a k fuel cur))
+                (walk_forward_by_ext (get_connection_dual enc false cfg l x) (get_connection_ext enc cfg l x) a a k
+                   (fun _ => eq_refl) fuel cur)).
+Qed.
+Print Assumptions manual_pagination_with_fallback_walks.
+
 (** * The cursor encoding of the code *)
 
 Theorem base64_is_injective : injective base64.
@@ -492,3 +594,24 @@ Example ex_externally_managed :
   | inr _ => False
   end.
 Proof. vm_compute. reflexivity. Qed.
+
+(** walking an externally managed connection (SetPageInfo, ApplyTextFilter; the resolver's own page info
+    says "no next page" and is ignored): three pages of the filtered, unsorted list *)
+Example ex_walk_externally_managed :
+  let '(pages, fin) := walk_forward_by (get_connection_ext base64 ex_cfg ex_list (mk_ext (Some 77%Z) false false [] true true))
+                         (S (List.length ex_list)) ex_args 2 None in
+  fin = true /\
+  map (fun r => match r with inl c => (map (fun e => n_key (e_node e)) (c_edges c), c_next c, c_total c)
+                           | inr _ => ([], false, 0%Z) end) pages =
+  [(["5"; "2"], true, 5%Z); (["9"; "7"], true, 5%Z); (["1"], false, 5%Z)]%string.
+Proof. vm_compute. split; reflexivity. Qed.
+
+(** first = 0 and a negative last *)
+Example ex_first_zero_and_negative :
+  match get_connection base64 ex_cfg ex_list (mk_args (Some 0%Z) None None None None None None false None) with
+  | inl c => (c_edges c, c_next c, c_end c, c_total c) = ([], true, EmptyString, 6%Z)
+  | inr _ => False
+  end /\
+  get_connection base64 ex_cfg ex_list (mk_args (Some 2%Z) (Some (-1)%Z) None None None None None false None)
+    = inr ErrNegative.
+Proof. vm_compute. split; reflexivity. Qed.
